@@ -266,6 +266,31 @@ fn scratch_file(tag: &str) -> std::path::PathBuf {
     dir.join(format!("c19-{}-{tag}.alist", std::process::id()))
 }
 
+/// makes `text` readable under `path`: as a regular file, or (a quarter of the texts) as a named pipe
+/// whose writer delivers the text in two pieces 40 ms apart, as `mkfifo` + a slow producer would
+fn provide_file(path: &std::path::Path, text: &str) -> Check {
+    if text.len() % 4 == 1 && text.len() >= 2 {
+        let c = std::ffi::CString::new(path.to_str().unwrap()).unwrap();
+        let _ = std::fs::remove_file(path);
+        if unsafe { libc::mkfifo(c.as_ptr(), 0o600) } == 0 {
+            let (p, t) = (path.to_path_buf(), text.as_bytes().to_vec());
+            std::thread::spawn(move || {
+                use std::io::Write;
+                // blocks until the constructor opens the pipe for reading
+                if let Ok(mut f) = std::fs::OpenOptions::new().write(true).open(&p) {
+                    let cut = t.len() * 2 / 5 + 1;
+                    let _ = f.write_all(&t[..cut]);
+                    let _ = f.flush();
+                    std::thread::sleep(std::time::Duration::from_millis(40));
+                    let _ = f.write_all(&t[cut..]);
+                }
+            });
+            return Ok(());
+        }
+    }
+    std::fs::write(path, text).map_err(|e| Fail::new(INCONCLUSIVE, format!("cannot write scratch file: {e}")))
+}
+
 fn cstr(s: &str) -> CString {
     CString::new(s.as_bytes()).unwrap_or_else(|_| CString::new("nul-inside").unwrap())
 }
@@ -322,7 +347,7 @@ fn run_case(case: &Case) -> Check {
             };
             let handle = unsafe {
                 if *via_file {
-                    std::fs::write(&file, &text).map_err(|e| Fail::new(INCONCLUSIVE, format!("cannot write scratch file: {e}")))?;
+                    provide_file(&file, &text)?;
                     let cf = cstr(file.to_str().unwrap());
                     let r = ldpc_toolbox_decoder_ctor(cf.as_ptr(), ci.as_ptr(), cp.as_ptr());
                     let _ = std::fs::remove_file(&file);
@@ -431,7 +456,7 @@ fn run_case(case: &Case) -> Check {
             };
             let handle = unsafe {
                 if *via_file {
-                    std::fs::write(&file, &text).map_err(|e| Fail::new(INCONCLUSIVE, format!("cannot write scratch file: {e}")))?;
+                    provide_file(&file, &text)?;
                     let cf = cstr(file.to_str().unwrap());
                     let r = ldpc_toolbox_encoder_ctor(cf.as_ptr(), cp.as_ptr());
                     let _ = std::fs::remove_file(&file);
@@ -673,7 +698,7 @@ pub fn property() -> Property {
         id: "C19",
         subs: vec![Box::new(Sub {
             name: "c-api",
-            rule: "each case in a child process (abort isolation). Decoder handles (a third of them built and used while another handle from the same alist text and name with another pattern is alive and has decoded a frame): alist (own writer, padded or not, as text or as a file) of a C01-style matrix, one of the 36 names, pattern '' or a 0/1 list with >= one 1 whose length (up to 12) divides n (n up to 14, in a fifth of the cases up to 36, one case in 26 with 250..=330 columns), then 1..=8 decode calls (f64 or f32 buffers of the punctured length, output_len in 0..=n, one call in twelve with infinite or NaN LLRs, skipped when the Rust decoder itself panics on them; limits incl. 0 and, for frames that a fresh Rust decoder converges on within 64 iterations, 10^6, 2^31-1, 2^31 and 2^32-1): return value = iterations / -1 and the output = leading bits of what a fresh Rust decoder returns for Puncturer::depuncture(llrs) (f32 widened); guard bytes behind the buffer untouched. Encoder handles (half of them built and used while another handle from the same alist text with another pattern is alive): C02-style matrices (one in 26 with 60..=140 rows or 200..=1100 message bits), pattern, 1..=4 messages: output = punctured Encoder::encode; a singular tail must give null. One path used three times (file holds H1, is overwritten with H2, is deleted): the second handle decodes as the Rust decoder of H2, the third constructor returns null. Failing constructors: malformed alist texts (C08 generator, filtered to texts the Rust parser rejects), unknown names, malformed patterns, missing file, directory instead of file, singular tail, names / patterns that are not valid UTF-8 -> null. Non-trivial = decoder handle with >= 2 calls, encoder with a pattern, or a failing constructor; inner = decode calls",
+            rule: "each case in a child process (abort isolation). Decoder handles (a third of them built and used while another handle from the same alist text and name with another pattern is alive and has decoded a frame): alist (own writer, padded or not, as text or as a file; a quarter of the files are named pipes whose writer delivers the text in two pieces 40 ms apart) of a C01-style matrix, one of the 36 names, pattern '' or a 0/1 list with >= one 1 whose length (up to 12) divides n (n up to 14, in a fifth of the cases up to 36, one case in 26 with 250..=330 columns), then 1..=8 decode calls (f64 or f32 buffers of the punctured length, output_len in 0..=n, one call in twelve with infinite or NaN LLRs, skipped when the Rust decoder itself panics on them; limits incl. 0 and, for frames that a fresh Rust decoder converges on within 64 iterations, 10^6, 2^31-1, 2^31 and 2^32-1): return value = iterations / -1 and the output = leading bits of what a fresh Rust decoder returns for Puncturer::depuncture(llrs) (f32 widened); guard bytes behind the buffer untouched. Encoder handles (half of them built and used while another handle from the same alist text with another pattern is alive): C02-style matrices (one in 26 with 60..=140 rows or 200..=1100 message bits), pattern, 1..=4 messages: output = punctured Encoder::encode; a singular tail must give null. One path used three times (file holds H1, is overwritten with H2, is deleted): the second handle decodes as the Rust decoder of H2, the third constructor returns null. Failing constructors: malformed alist texts (C08 generator, filtered to texts the Rust parser rejects), unknown names, malformed patterns, missing file, directory instead of file, singular tail, names / patterns that are not valid UTF-8 -> null. Non-trivial = decoder handle with >= 2 calls, encoder with a pattern, or a failing constructor; inner = decode calls",
             cases: |t| t.pick(12_000, 400_000),
             strategy,
             check,
